@@ -30,9 +30,8 @@ Dirs      == << "generic", "axis", "z1", "par", "z0", "perp", "z2" >>    \* zk: 
 
 GroupsD == << "SO2_d", "SE2_d", "SO3_d", "SE3_d", "SE_2_3_d", "SGal3_d", "R3_d" >>
 GroupsF == << "SO2_f", "SE2_f", "SO3_f", "SE3_f", "SE_2_3_f", "SGal3_f", "R3_f" >>
-\* quick tier: single precision for every group on the cheap one-operand plans, for three groups on the two-operand / Jacobian plans
-GroupsQ == IF Tier = "thorough" \/ Prop \in {"C02", "C03", "C06", "C07", "C15", "C16", "C18"}
-           THEN GroupsD \o GroupsF ELSE GroupsD \o << "SE2_f", "SE3_f", "SGal3_f" >>
+\* both tiers run every group in both precisions (the tiers differ in the number of draws per cell and in the sweeps)
+GroupsQ == GroupsD \o GroupsF
 
 Reps == IF Tier = "thorough" THEN 12 ELSE 2
 Range(s) == { s[i] : i \in 1..Len(s) }
